@@ -12,6 +12,11 @@ from smpl_extract.util.dataclass import ItemT
 class InfoTable(Printable):
 
 
+    # a cell wider than this is printed in full but does not widen its 
+    # column (one very long name made every row of a listing that long)
+    MAX_COLUMN_WIDTH = 255
+
+
     def __init__(
             self,
             header: Tuple[str, ...],
@@ -44,7 +49,7 @@ class InfoTable(Printable):
                 if i + 1 > num_columns:
                     num_columns = i + 1
                 # width of ith column
-                width = len(column_value)
+                width = min(len(column_value), self.MAX_COLUMN_WIDTH)
                 if i not in column_widths.keys():
                     column_widths[i] = max(width, self.column_width)
                 elif width > column_widths[i]:
